@@ -208,9 +208,15 @@ class Check:
         axioms = {}
         bad_ax = []
         if ok:
-            names = [t[2] for t in thms if t[0] == files[0]]
-            ns = 'VtlModel.' + name
-            aud = 'import %s\n' % mod + ''.join('#print axioms %s.%s\n' % (ns, n) for n in names)
+            names = []
+            aud = 'import %s\n' % mod + ''.join('import %s\n' % m for m in extra_modules)
+            for f in files:
+                m_ns = re.search(r'^namespace\s+(\S+)', strip_lean_comments(open(f).read()), re.M)
+                ns = m_ns.group(1) if m_ns else 'VtlModel.' + name
+                for t in thms:
+                    if t[0] == f:
+                        names.append(t[2])
+                        aud += '#print axioms %s.%s\n' % (ns, t[2])
             os.makedirs(os.path.join(LEAN, '.lake', 'audit'), exist_ok=True)
             ap = os.path.join(LEAN, '.lake', 'audit', name + '.lean')
             open(ap, 'w').write(aud)
